@@ -76,6 +76,33 @@ def run(chk):
             if not (stats_close(acc, whole) and stats_close(acc2, whole)):
                 chk.fail("split-and-add over composition %s differs from whole-set statistics" % (parts,),
                          dict(ctx, composition=list(parts), whole=dump(whole), added=dump(acc), iadded=dump(acc2)))
+        # accumulation into a fresh, empty container with += ; the operands must stay what they were
+        if N >= 3:
+            parts3 = gen.random_composition(r, N, 4)
+            sts = [m.acc_stats(b) for b in gen.split_rows(X, parts3)]
+            keep = [dump(t) for t in sts]
+            acc0 = GMMStats(C, D)
+            for t in sts:
+                acc0 += t
+            chk.count(1, key=("iadd-into-empty", len(parts3)))
+            if not stats_close(acc0, whole):
+                chk.fail("accumulating blocks %s into an empty GMMStats with += differs from whole-set statistics" % (parts3,), dict(ctx, composition=list(parts3)))
+            if [dump(t) for t in sts] != keep:
+                chk.fail("accumulating into an empty GMMStats with += changed the operands (blocks %s)" % (parts3,), dict(ctx, composition=list(parts3)))
+            # the reduction the M-step wrapper performs over k per-chunk statistics (k = 1..5, odd and even)
+            from bob.learn.em import gmm as gmm_module
+            for k in range(1, min(N, 5) + 1):
+                partsk = gen.random_composition(r, N, k) if k < N else tuple([1] * N)
+                if len(partsk) != k:
+                    continue
+                m_a = make_gmm(np.array(m.weights), np.array(m.means), np.array(m.variances), update_variances=True, update_weights=True)
+                m_b = make_gmm(np.array(m.weights), np.array(m.means), np.array(m.variances), update_variances=True, update_weights=True)
+                gmm_module.m_step([m_a.acc_stats(X)], m_a)
+                gmm_module.m_step([m_b.acc_stats(bk) for bk in gen.split_rows(X, partsk)], m_b)
+                chk.count(1, key=("m_step-reduce", k))
+                if not (np.allclose(m_a.means, m_b.means, rtol=1e-9, atol=1e-12) and np.allclose(m_a.weights, m_b.weights, rtol=1e-9, atol=1e-12)
+                        and np.allclose(m_a.variances, m_b.variances, rtol=1e-8, atol=1e-12 * scale_x ** 2)):
+                    chk.fail("m_step over %d per-chunk statistics differs from m_step over the whole-set statistics" % k, dict(ctx, composition=list(partsk)))
         # arbitrary (non-consecutive) blocks
         perm = list(range(N))
         r.shuffle(perm)
